@@ -318,6 +318,17 @@ async function evalDefine(code, envSpec, protocol) {
     return out;
   }
   const ns = mod.namespace;
+  // calls made inside exported thunks count too
+  for (const n of Object.keys(ns).sort()) {
+    if (n.startsWith('thunk') && typeof ns[n] === 'function') {
+      try {
+        ns[n]();
+      } catch (e) {
+        out.error = canonError(e, 'thunk:' + n);
+        return out;
+      }
+    }
+  }
   out.calls = state.defined.map((rec) => {
     const [setup, options] = rec.args;
     const r = { nargs: rec.args.length, arg0: canon(setup), options_kind: options === undefined ? 'absent' : typeof options };
